@@ -7,8 +7,10 @@ import (
 	"io"
 	"math/big"
 	mrand "math/rand"
+	"sort"
 
 	secp256k1 "github.com/bytemare/secp256k1"
+	"github.com/bytemare/secp256k1/internal/verif/alpha"
 	"github.com/bytemare/secp256k1/internal/verif/ev"
 	"github.com/bytemare/secp256k1/internal/verif/ref"
 )
@@ -200,6 +202,49 @@ func c18Blocks() []*big.Int {
 	return out
 }
 
+// c18ValueBlocks returns the 256-bit strings of the value sweep.
+func c18ValueBlocks() []*big.Int {
+	set := map[string]*big.Int{}
+	add := func(v *big.Int) {
+		if v.Sign() >= 0 && v.BitLen() <= 256 {
+			set[v.Text(16)] = v
+		}
+	}
+
+	for _, v := range alpha.Strings256(ref.N, 2) {
+		add(v)
+	}
+
+	for d := int64(-256); d <= 256; d++ {
+		add(new(big.Int).Add(ref.N, big.NewInt(d)))
+		add(new(big.Int).Sub(ref.Two256(), big.NewInt(d)))
+		add(new(big.Int).Add(new(big.Int).Lsh(big.NewInt(1), 255), big.NewInt(d)))
+	}
+
+	// single-limb deviations from n, and n with one limb replaced by a pattern
+	nl := ref.Limbs(ref.N)
+	for pos := 0; pos < 4; pos++ {
+		for _, v := range []uint64{0, 1, 1 << 63, ^uint64(0), ^uint64(0) - 1, nl[pos] - 1, nl[pos] + 1} {
+			l := nl
+			l[pos] = v
+			add(ref.FromLimbs(l))
+		}
+	}
+
+	for _, v := range alpha.WithWitnesses(nil, ref.N) {
+		add(v.V)
+	}
+
+	out := make([]*big.Int, 0, len(set))
+	for _, v := range set {
+		out = append(out, v)
+	}
+
+	sort.Slice(out, func(i, j int) bool { return out[i].Cmp(out[j]) < 0 })
+
+	return out
+}
+
 // C18 explores every script of the entropy source up to the depth bound.
 func C18(r *ev.Report) {
 	depth := 4
@@ -272,6 +317,24 @@ func C18(r *ev.Report) {
 		}
 	}
 
+	// value sweep: what Random does with an accepted block is a reduction of an arbitrary 256-bit string, so the
+	// single-block scripts also run over the byte-string alphabet of the scalar decoders (limb products, windows
+	// around n and 2^256, solved members), whole and byte-wise delivery, no fault, after a zero block and without
+	nMain := len(scripts)
+
+	for _, b := range c18ValueBlocks() {
+		if ref.Mod(b, ref.N).Sign() == 0 {
+			continue
+		}
+
+		for _, pre := range [][]*big.Int{nil, {big.NewInt(0)}} {
+			for _, chunk := range []int{0, 1} {
+				scripts = append(scripts, script{blocks: append(append([]*big.Int{}, pre...), b), chunk: chunk, faultAt: -1, prior: 3})
+			}
+		}
+	}
+
+	r.Bound("value_sweep_scripts", len(scripts)-nMain)
 	r.Bound("scripts", len(scripts))
 	r.Bound("prior_receiver_values", len(c18Priors))
 	r.States.Add(int64(len(scripts)))
